@@ -388,6 +388,48 @@ pub struct AttrRows {
     pub n: i32,
 }
 
+/// More shapes of attribute and header fields (added after `AttrRows` had shown that these positions were thin):
+/// a struct, a map, an optional value in an attribute, a vector as the header body.
+#[derive(Form, Debug, Clone, PartialEq)]
+pub struct InnerZ {
+    pub z: i32,
+}
+
+#[derive(Form, Debug, Clone, PartialEq)]
+pub struct AttrStruct {
+    #[form(attr)]
+    pub a: Plain,
+    pub b: i32,
+}
+
+#[derive(Form, Debug, Clone, PartialEq)]
+pub struct AttrOne {
+    #[form(attr)]
+    pub a: InnerZ,
+    pub b: i32,
+}
+
+#[derive(Form, Debug, Clone, PartialEq)]
+pub struct AttrMap {
+    #[form(attr)]
+    pub m: HashMap<String, i32>,
+    pub n: i32,
+}
+
+#[derive(Form, Debug, Clone, PartialEq)]
+pub struct AttrOpt {
+    #[form(attr)]
+    pub o: Option<i32>,
+    pub n: i32,
+}
+
+#[derive(Form, Debug, Clone, PartialEq)]
+pub struct HdrBodyVec {
+    #[form(header_body)]
+    pub v: Vec<i32>,
+    pub n: i32,
+}
+
 #[derive(Form, Debug, Clone, PartialEq)]
 pub struct Wrap {
     #[form(header)]
@@ -458,6 +500,11 @@ pub enum TV {
     HdrVec { n: i32, items: Vec<i32>, flag: bool },
     VecHdrVec(Vec<(i32, Vec<i32>, bool)>),
     AttrRows { rows: Vec<Vec<i32>>, n: i32 },
+    AttrStruct { a: i32, b: String, c: Option<i64>, n: i32 },
+    AttrOne { z: i32, n: i32 },
+    AttrMap { m: BTreeMap<String, i32>, n: i32 },
+    AttrOpt { o: Option<i32>, n: i32 },
+    HdrBodyVec { v: Vec<i32>, n: i32 },
     /// `swimos_model::Timestamp`, microseconds since the epoch (not negative).
     Timestamp(u64),
 }
@@ -494,6 +541,10 @@ pub trait TypedVisitor {
     /// Called before `visit`: the value holds an empty vector of vectors in an attribute (classification of a recorded
     /// finding: it is printed `@rows({})`, which is read as one empty row).
     fn note_empty_attr_vec(&mut self, _present: bool) {}
+
+    /// Called before `visit`: the value has an attribute whose body is a struct with exactly one field (classification of
+    /// a recorded finding: the printers omit the braces around a single slot in an attribute body).
+    fn note_attr_single_slot(&mut self, _present: bool) {}
 
     fn visit<T>(&mut self, type_name: &'static str, value: T, eq: fn(&T, &T) -> bool)
     where
@@ -540,6 +591,11 @@ impl TV {
             TV::HdrVec { .. } => "struct_hdr_vec",
             TV::VecHdrVec(_) => "vec_struct_hdr_vec",
             TV::AttrRows { .. } => "struct_attr_rows",
+            TV::AttrStruct { .. } => "struct_attr_struct",
+            TV::AttrOne { .. } => "struct_attr_one_field_struct",
+            TV::AttrMap { .. } => "struct_attr_map",
+            TV::AttrOpt { .. } => "struct_attr_opt",
+            TV::HdrBodyVec { .. } => "struct_hdr_body_vec",
         }
     }
 
@@ -554,7 +610,8 @@ impl TV {
         };
         vis.note_infinite_float(infinite);
         vis.note_lone_absent_item(matches!(self, TV::VecOptI32(v) if v.len() == 1 && v[0].is_none()));
-        vis.note_empty_attr_vec(matches!(self, TV::AttrRows { rows, .. } if rows.is_empty()));
+        vis.note_attr_single_slot(matches!(self, TV::AttrOne { .. }));
+        vis.note_empty_attr_vec(matches!(self, TV::AttrRows { rows, .. } if rows.is_empty()) || matches!(self, TV::AttrMap { m, .. } if m.is_empty()));
         match self {
             TV::Unit => vis.visit(name, (), eq_std),
             TV::I32(n) => vis.visit(name, *n, eq_std),
@@ -595,6 +652,11 @@ impl TV {
             TV::HdrVec { n, items, flag } => vis.visit(name, HdrVec { n: *n, items: items.clone(), flag: *flag }, eq_std),
             TV::VecHdrVec(v) => vis.visit(name, v.iter().map(|(n, items, flag)| HdrVec { n: *n, items: items.clone(), flag: *flag }).collect::<Vec<HdrVec>>(), eq_std),
             TV::AttrRows { rows, n } => vis.visit(name, AttrRows { rows: rows.clone(), n: *n }, eq_std),
+            TV::AttrStruct { a, b, c, n } => vis.visit(name, AttrStruct { a: Plain { a: *a, b: b.clone(), c: *c }, b: *n }, eq_std),
+            TV::AttrOne { z, n } => vis.visit(name, AttrOne { a: InnerZ { z: *z }, b: *n }, eq_std),
+            TV::AttrMap { m, n } => vis.visit(name, AttrMap { m: m.iter().map(|(k, v)| (k.clone(), *v)).collect(), n: *n }, eq_std),
+            TV::AttrOpt { o, n } => vis.visit(name, AttrOpt { o: *o, n: *n }, eq_std),
+            TV::HdrBodyVec { v, n } => vis.visit(name, HdrBodyVec { v: v.clone(), n: *n }, eq_std),
         }
     }
 
@@ -859,6 +921,42 @@ impl TV {
             TV::VecHdrVec(v) => {
                 out.extend(vecs(v).into_iter().map(TV::VecHdrVec));
             }
+            TV::AttrStruct { a, b, c, n } => {
+                if *a != 0 || !b.is_empty() || c.is_some() || *n != 0 {
+                    out.push(TV::AttrStruct { a: 0, b: String::new(), c: None, n: 0 });
+                }
+            }
+            TV::AttrOne { z, n } => {
+                if *z != 0 || *n != 0 {
+                    out.push(TV::AttrOne { z: 0, n: 0 });
+                }
+            }
+            TV::AttrMap { m, n } => {
+                if let Some(k) = m.keys().next().cloned() {
+                    let mut c = m.clone();
+                    c.remove(&k);
+                    out.push(TV::AttrMap { m: c, n: *n });
+                }
+                if *n != 0 {
+                    out.push(TV::AttrMap { m: m.clone(), n: 0 });
+                }
+            }
+            TV::AttrOpt { o, n } => {
+                if matches!(o, Some(x) if *x != 0) {
+                    out.push(TV::AttrOpt { o: Some(0), n: *n });
+                }
+                if *n != 0 {
+                    out.push(TV::AttrOpt { o: *o, n: 0 });
+                }
+            }
+            TV::HdrBodyVec { v, n } => {
+                if !v.is_empty() {
+                    out.push(TV::HdrBodyVec { v: v[1..].to_vec(), n: *n });
+                }
+                if *n != 0 {
+                    out.push(TV::HdrBodyVec { v: v.clone(), n: 0 });
+                }
+            }
             TV::AttrRows { rows, n } => {
                 if !rows.is_empty() {
                     out.push(TV::AttrRows { rows: rows[1..].to_vec(), n: *n });
@@ -879,6 +977,9 @@ impl TV {
         out.retain(|c| c != self && !matches!(c, TV::VecOptI32(v) if v.len() == 1 && v[0].is_none()));
         if !matches!(self, TV::AttrRows { rows, .. } if rows.is_empty()) {
             out.retain(|c| !matches!(c, TV::AttrRows { rows, .. } if rows.is_empty()));
+        }
+        if !matches!(self, TV::AttrMap { m, .. } if m.is_empty()) {
+            out.retain(|c| !matches!(c, TV::AttrMap { m, .. } if m.is_empty()));
         }
         out
     }
